@@ -24,6 +24,13 @@ def main():
         print(f"no check for {a.prop}: {e}", file=sys.stderr)
         return 2
     os.chdir(core.VERIF)
+    # checks of /repo may run side by side (shared lock); a run against ANOTHER tree (VERIF_REPO: seeded-change
+    # evaluation) regenerates lean/DAVerif/Generated from that tree and so must have the Lean project to itself
+    import fcntl
+    os.makedirs(core.WORK, exist_ok=True)
+    _run_lock = open(os.path.join(core.WORK, "run.lock"), "w")
+    other_tree = os.path.realpath(os.environ.get("VERIF_REPO") or "/repo") != os.path.realpath("/repo")
+    fcntl.flock(_run_lock, fcntl.LOCK_EX if other_tree else fcntl.LOCK_SH)
     try:
         if a.replay:
             return core.replay(mod, a.replay)
